@@ -12,8 +12,10 @@ CONSTANTS
   MaxDel = 1
   Interleave = FALSE
   MidEnv = TRUE
+  BFin = TRUE
   FixBump = FALSE
 VIEW view
 ACTION_CONSTRAINT EmitAll
 CHECK_DEADLOCK FALSE
 INVARIANTS TypeOK Allowed Owned IndexAgree
+PROPERTIES UsageAfterUser
